@@ -5,7 +5,7 @@ Each `verify_*` builds the symbolic pre-state (`requires`), runs the REAL functi
 of the callee and as assumptions at call sites.
 """
 import z3
-from vf.pyvc.engine import (Exec, Path, Dyn, Rng, Tup, Opaque, NONE, Raised, SymObj, find_def, pow2, POW2_AXIOMS,
+from vf.pyvc.engine import (Exec, Path, Dyn, Rng, Tup, Opaque, NONE, Raised, SymObj, find_def, pow2, POW2_AXIOMS, POW2_AXIOMS_LIN,
                             T_NONE, T_INT, T_COMPONENT, T_OTHER, Unsupported, AbsSeq)
 from vf.pyvc.driver import FnVerifier
 from . import memory_model as mm
@@ -81,11 +81,33 @@ def c_compute_addr_range(ex, recv, args, kwargs, q, node):
     cur_next = ex.toint(ex.getattr(self_, "_next_addr", q, node)[0][0])
     for _, f in car_post(view, h["aw"], h["al"], cur_next, addr, size, step, alignment, start, stop):
         q.assume(f)
+    q.ghost["car_call"] = {"start": start, "stop": stop, "alignment": alignment, "addr": addr}
     out = []
     if ex.feasible(q.pc):
         out.append((Rng(start, stop, step), q))
     out.append((Raised("ValueError"), bad))
     return out
+
+
+def align_layer(fv, lab, p, h, v, start, stop, cuts, extra=()):
+    """Obligations `wf-align-preserved:*` for a path that inserted [start, stop): the second invariant layer
+    (memory_model.wf_align_parts) holds for the new view, given it held before.  Premises: the path condition, the layer for
+    the old view, `cuts` (clauses of this same path that are proved as their own obligations: cut rule), the definitions of
+    Al/Dv/fdiv unfolded at the terms of this path, and ground instances of the Lean lemmas."""
+    call = p.ghost.get("car_call")
+    al = h["al"]
+    inst = [mm.def_Al(start, al), mm.def_Al(stop - start, al)]
+    if call is not None:
+        A = call["alignment"]
+        inst.append(mm.def_Al(call["addr"].ival, al))
+        inst += [mm.def_Al(start, A), mm.def_Al(stop - start, A),
+                 mm.lemma_aligned_coarser(start, A, al), mm.lemma_aligned_coarser(stop - start, A, al)]
+    pre = list(p.pc) + [h["wf_align"]] + list(cuts) + inst + list(extra)
+    for nm, f in mm.wf_align_parts(v, al):
+        fv.add("wf-align-preserved:" + nm, lab, pre, f, axioms=POW2_AXIOMS_LIN)
+    if not getattr(fv, "_align_canary", False):
+        fv._align_canary = True
+        fv.add("canary:wf-align-premises-consistent", lab, pre, z3.BoolVal(False), expect_sat="not-unsat", axioms=POW2_AXIOMS_LIN)
 
 
 def as_dyn(v, q):
@@ -291,6 +313,9 @@ def verify_add_resource():
             fv.add(nm, f"path{k}", p.pc, f)
         for nm, f in mm.wf_map_parts(v, h["aw"], h["dw"], h["al"], nxt):
             fv.add("wf-preserved:" + nm, f"path{k}", p.pc, f)
+        cd = dict(clauses)
+        align_layer(fv, f"path{k}", p, h, v, start, stop,
+                    [cd[c] for c in ("recorded-in-ranges", "others-unchanged", "not-a-window", "explicit-addr-honoured")])
     fv.add("cover:some-path-returns", "vacuity", [], z3.BoolVal(n_ret > 0))
     fv.add_engine_obligations(ex)
     return fv
@@ -390,6 +415,14 @@ def verify_add_window():
                 fv.add(nm, lab, p.pc, f)
             for nm, f in mm.wf_map_parts(v, h["aw"], h["dw"], h["al"], nxt):
                 fv.add("wf-preserved:" + nm, lab, p.pc, f)
+            cd = dict(clauses)
+            # the new entry is a window: its geometry (by identity) is the window map's, its ratio passed the power-of-two test
+            extra = [mm.geometry_link(window.ref, waw, wdw, wal), mm.def_fdiv(pow2(waw), step)]
+            extra += [mm.lemma_pow2_test(x, r, wal) for x, r in p.ghost.get("pow2tests", ())]
+            align_layer(fv, lab, p, h, v, start, stop,
+                        [cd[c] for c in ("recorded-in-ranges", "others-unchanged", "explicit-addr-honoured", "ratio-reported",
+                                         "dense-ratio-reported", "size-covers-window[ratio1]", "size-covers-window-span-over-ratio[dense]")],
+                        extra)
         fv.add_engine_obligations(ex)
     fv.add("cover:some-path-returns", "vacuity", [], z3.BoolVal(n_ret > 0))
     return fv
@@ -537,6 +570,8 @@ def verify_init():
         pre = [v.n == 0, z3.ForAll([mm._i], z3.And(z3.Not(v.isres[mm._i]), z3.Not(v.iswin[mm._i])))]
         for nm, f in mm.wf_map_parts(v, aw.ival, dw.ival, al.ival, z3.IntVal(0)):
             fv.add("establishes-wf:" + nm, f"path{k}", p.pc + pre, f)
+        for nm, f in mm.wf_align_parts(v, al.ival):
+            fv.add("establishes-wf-align:" + nm, f"path{k}", p.pc + pre, f)
     fv.add("cover:some-path-returns", "vacuity", [], z3.BoolVal(n_ret > 0))
     fv.add_engine_obligations(ex)
     return fv
